@@ -77,7 +77,7 @@ def plan(tier, seed):
                 jobs.append(dict(kind='read', rows=r, cols=2, dtype=dt, missing=missing, col=(r + (1 if missing else 0)) % 2))
     jobs.append(dict(kind='read', rows=2, cols=3, dtype='float', missing=True, col=1))
     jobs += [dict(kind='read-errors', rows=r) for r in (0, 1, 2)]
-    jobs += [dict(kind='write', k=k, n=n, reps=rp) for k in (1, 2, 3) for n in (1, 2) for rp in ('n', 'm')]
+    jobs += [dict(kind='write', k=k, n=n, reps=rp, kinds=kd) for k in (1, 2, 3) for n in (1, 2) for rp in ('n', 'm') for kd in (('f',) if k == 1 else ('f', 'if', 'fi'))]
     jobs.append(dict(kind='floats'))
     return jobs
 
@@ -247,7 +247,8 @@ def write_harness(ctx, cfg):
     cio = D.MODS['cio']
     k, n = cfg['k'], cfg['n']
     rep = D.REPS[cfg['reps']]
-    hs = [D.sym_array(ctx, 'col%d' % j, (n,), 'f', rep, False) for j in range(k)]
+    kd = cfg.get('kinds', 'f')
+    hs = [D.sym_array(ctx, 'col%d' % j, (n,), kd[j] if j < len(kd) else kd[-1], rep, False) for j in range(k)]
     for j, h in enumerate(hs):
         h.command.result_name = ['Alpha', 'Beta', 'Gamma'][j]
     order = list(range(k))
